@@ -19,6 +19,7 @@ TStep ==
                   \cup (IF ev.e = "start" /\ active' # None /\ active' # sh.defmode /\ selStr \notin sh.modes THEN {"chooser_selection"} ELSE {})
                   \cup (IF ev.e = "periodic" /\ active = None THEN {"periodic_idle"} ELSE {})
                   \cup (IF ViaRun(ev) THEN {"run"} ELSE {})
+                  \cup (IF ev.e = "endcomp" /\ active # None THEN {"end_while_enabled"} ELSE {})
                   \cup (IF ViaRun(ev) /\ ev.e = "periodic" /\ active = None /\ \E m \in sh.modes : life[m] = "idle" /\ chooser # None
                         THEN {"run_goes_on_after_disable"} ELSE {})
             /\ IF o.cb # out'
